@@ -116,7 +116,9 @@ func (db *DB) Close() {
 		db.immutables.PushBack(mt)
 		db.mu.Unlock()
 
+		verifhook.At("cl.enq.pre", len(db.flushC), cap(db.flushC))
 		db.flushC <- mt
+		verifhook.At("cl.enq", len(db.flushC))
 	} else {
 		mt.freeze()
 		if err := mt.wal.Delete(); err != nil {
